@@ -125,7 +125,9 @@ fn check_cell(c: &Cell, st: &mut Stats) -> Result<(), String> {
                 match call.into_body() {
                     Err(e) => return Err(format!("{}: into_body failed: {:?}", what(), e)),
                     Ok(None) => {
-                        if !matches(&expect, Framing::None) {
+                        // "the state after the head is the body state exactly when a non-empty body is expected": for a declared
+                        // length of 0 the single-call API may hand out an already-ended reader or none at all
+                        if !matches(&expect, Framing::None) && !matches(&expect, Framing::Length(0)) {
                             return Err(format!("{}: into_body() is None, expected {:?}", what(), expect));
                         }
                     }
